@@ -23,6 +23,7 @@ type c08Op struct {
 }
 
 type c08Case struct {
+	Bulk   int         `json:"bulk"` // rows inserted (and flushed) before phase 1: a table over several leaves
 	Cols   []model.Col `json:"cols"`
 	Phase1 []c08Op     `json:"phase1"` // before flush / eviction / clean restart
 	Phase2 []c08Op     `json:"phase2"` // after the restart, ended by a crash
@@ -207,6 +208,23 @@ func c08Ops(rt *rapid.T, cols []model.Col, db *model.DB, nextRid *int64, n int) 
 	return ops
 }
 
+// c08BulkRow is a plain valid row (row number, small values) used to pre-fill the table.
+func c08BulkRow(cols []model.Col, rid int64) model.Stmt {
+	row := make([]model.Val, len(cols))
+	row[0] = model.Int(rid)
+	for i := 1; i < len(cols); i++ {
+		switch cols[i].Type {
+		case model.TInt, model.TBigInt:
+			row[i] = model.Int(rid % 7)
+		case model.TBool:
+			row[i] = model.Bool(rid%2 == 0)
+		default:
+			row[i] = model.Str(fmt.Sprintf("bulk%d", rid))
+		}
+	}
+	return model.Stmt{Kind: "insert", Table: c08Table, Rows: [][]model.Val{row}}
+}
+
 func c08Gen(rt *rapid.T) c08Case {
 	c := c08Case{}
 	ncols := rapid.IntRange(1, 8).Draw(rt, "ncols")
@@ -222,6 +240,11 @@ func c08Gen(rt *rapid.T) c08Case {
 	db := model.NewDB()
 	db.Apply(model.Stmt{Kind: "create", Table: c08Table, Cols: c.Cols})
 	rid := int64(1)
+	c.Bulk = rapid.SampledFrom([]int{0, 0, 3, 9, 20, 40}).Draw(rt, "bulk")
+	for i := 0; i < c.Bulk; i++ {
+		db.Apply(c08BulkRow(c.Cols, rid))
+		rid++
+	}
 	c.Phase1 = c08Ops(rt, c.Cols, db, &rid, rapid.IntRange(2, 14).Draw(rt, "n1"))
 	c.Phase2 = c08Ops(rt, c.Cols, db, &rid, rapid.IntRange(1, 8).Draw(rt, "n2"))
 	return c
@@ -260,6 +283,17 @@ func c08Run(c c08Case, st *vlib.Stats) string {
 		if err := eng.ExecStmt(s); err != nil {
 			return "setup statement refused: " + err.Error()
 		}
+	}
+	for i := 0; i < c.Bulk; i++ {
+		s := c08BulkRow(c.Cols, int64(i+1))
+		m.Apply(s)
+		if err := eng.ExecStmt(s); err != nil {
+			return "bulk insert refused: " + err.Error()
+		}
+	}
+	if c.Bulk > 0 {
+		// everything on disk and clean before the operations under test
+		eng.Flush()
 	}
 	kinds := map[string]bool{}
 	boundary, refusedNotFirst, reloads := false, false, 0
